@@ -527,6 +527,31 @@ def os_replace(I, args, kw):
     return VNone()
 
 
+def shutil_copyfile(I, args, kw):
+    """shutil.copyfile / copy / copy2 (src, dst): a *non-atomic* write of dst -- dst is opened for writing (truncated or
+    created: first effect, a crash point with dst empty), then filled with the content of src (second effect); either
+    step may fail with OSError leaving the state reached so far"""
+    ks, kd = key_of(I, I.force(args[0])), key_of(I, I.force(args[1]))
+    _called(I, "shutil.copyfile")
+    _no_open_writer(I, "shutil.copyfile")
+    must_exist(I, ks, "shutil.copyfile")
+    may_fail(I, "shutil.copyfile(open)")
+    m = _ghost(I, "fs")
+    content = z3.Select(m.val, ks)
+    effect(I, "shutil.copyfile(truncate)", kd, lambda: _put(I, kd, z3.StringVal("")))
+    may_fail(I, "shutil.copyfile(write)")
+    effect(I, "shutil.copyfile(write)", kd, lambda: _put(I, kd, content))
+    _interrupt(I, "shutil.copyfile", "after")
+    return args[1]
+
+
+def shutil_move(I, args, kw):
+    """shutil.move(src, dst): os.rename when possible, else copy + unlink -- modelled as the weaker, non-atomic variant"""
+    r = shutil_copyfile(I, args, kw)
+    _unlink(I, key_of(I, I.force(args[0])))
+    return r
+
+
 def _unlink(I, key):
     _called(I, "unlink")
     _no_open_writer(I, "unlink")
@@ -646,6 +671,8 @@ TABLE = {
     ("pathlib", "Path"): fs_Path,
     ("tempfile", "NamedTemporaryFile"): fs_ntf,
     ("os", "replace"): os_replace,
+    ("shutil", "copyfile"): shutil_copyfile, ("shutil", "copy"): shutil_copyfile, ("shutil", "copy2"): shutil_copyfile,
+    ("shutil", "move"): shutil_move,
     ("os", "unlink"): os_unlink,
     ("os", "remove"): os_unlink,
     ("os", "stat"): os_stat,
